@@ -7,6 +7,7 @@ import (
 	"encoding/json"
 	"fmt"
 	"os"
+	"time"
 )
 
 type replayFile struct {
@@ -155,3 +156,41 @@ func CleanupTempDirs() {
 	}
 	tempDirs = nil
 }
+
+// LoopBound: from now on, a loop header visited more than n times in one
+// function activation is reported as a hang (0 switches the monitor off).
+// Natively use NoHang.
+func LoopBound(n int) {}
+
+// NoHang runs f; natively it fails the check if f has not returned after a
+// few seconds, symbolically it bounds every loop by iterations.
+func NoHang(iterations int, f func()) {
+	if Symbolic() {
+		LoopBound(iterations)
+		f()
+		LoopBound(0)
+		return
+	}
+	done := make(chan struct{})
+	go func() {
+		defer func() {
+			if r := recover(); r != nil {
+				nativePanic = r
+			}
+			close(done)
+		}()
+		f()
+	}()
+	select {
+	case <-done:
+		if nativePanic != nil {
+			r := nativePanic
+			nativePanic = nil
+			panic(r)
+		}
+	case <-time.After(4 * time.Second):
+		Check(false, "loop does not terminate (hang): no return after 4 s")
+	}
+}
+
+var nativePanic any
